@@ -572,7 +572,7 @@ def analyse_sac(rec, label, opt):
     alpha = rec.cur.get("alpha")
     if alpha is None:
         alpha = float(m.ent_coef_tensor) if m.ent_coef_optimizer is None else math.exp(float(m.log_ent_coef.detach()))
-        if m.ent_coef_optimizer is None and abs(alpha - cfg["ent_coef"]) > 1e-6:
+        if m.ent_coef_optimizer is None and abs(alpha - float(cfg["ent_coef"])) > 1e-6:
             rec.prob("oracle-sac-fixed-ent-coef", f"entropy coefficient {alpha} != configured {cfg['ent_coef']}")
     if label == "critic":
         cts, crs = rec.calls("critic_target"), rec.calls("critic")
@@ -733,6 +733,14 @@ def gen_configs(rng, tier):
         dict(algo="sac", continuous=True, batch_size=5, gamma=0.97, ent_coef="auto_0.1", n_critics=1, total=20, learning_starts=10, train_freq=2, gradient_steps=1, share=True),
         dict(algo="td3", continuous=True, batch_size=5, gamma=0.93, n_critics=3, policy_delay=2, target_policy_noise=0.2, target_noise_clip=0.5, total=20, learning_starts=10, train_freq=2,
              gradient_steps=2, share=True),
+        # round 4 audit: target_kl early stopping, batch larger than the rollout, DQN with n_envs > target_update_interval (warning branch),
+        # DDPG with its default critic count, ent_coef given as a numeric string, gradient_steps=-1
+        dict(algo="ppo", continuous=True, n_steps=8, batch_size=64, n_epochs=4, clip_range=0.2, clip_range_vf=None, normalize_advantage=True, ent_coef=0.0, vf_coef=0.5,
+             max_grad_norm=0.5, gamma=0.99, total=16, share=True, target_kl=1e-4, lr0=5e-2),
+        dict(algo="dqn", continuous=False, n_envs=3, batch_size=5, gamma=0.95, max_grad_norm=10.0, total=45, learning_starts=12, train_freq=1, gradient_steps=1, target_update_interval=2),
+        dict(algo="ddpg", continuous=True, batch_size=4, gamma=0.9, n_critics=1, default_critics=True, policy_delay=1, target_policy_noise=0.1, target_noise_clip=0.0, total=18, learning_starts=8,
+             train_freq=2, gradient_steps=1),
+        dict(algo="sac", continuous=True, batch_size=4, gamma=0.9, ent_coef="0.3", n_critics=2, total=18, learning_starts=8, train_freq=3, gradient_steps=-1),
     ]
     out = []
     reps = 1 if tier == "quick" else 10
@@ -774,7 +782,8 @@ def build_model(cfg):
             pk["squash_output"] = True
         m = sb3.PPO("MlpPolicy", env, n_steps=cfg["n_steps"], batch_size=cfg["batch_size"], n_epochs=cfg["n_epochs"],
                     clip_range=(lambda p: c0 * (0.5 + 0.5 * p)) if cfg.get("linear_clip") else c0, clip_range_vf=cfg["clip_range_vf"], normalize_advantage=cfg["normalize_advantage"],
-                    ent_coef=cfg["ent_coef"], vf_coef=cfg["vf_coef"], max_grad_norm=cfg["max_grad_norm"], use_sde=cfg.get("use_sde", False), policy_kwargs=pk, **common_kw)
+                    ent_coef=cfg["ent_coef"], vf_coef=cfg["vf_coef"], max_grad_norm=cfg["max_grad_norm"], use_sde=cfg.get("use_sde", False), target_kl=cfg.get("target_kl"),
+                    policy_kwargs=pk, **common_kw)
     elif algo == "a2c":
         pk = dict(net_arch=dict(pi=[8], vf=[8]))
         if cfg.get("squash"):
@@ -783,7 +792,7 @@ def build_model(cfg):
                     max_grad_norm=cfg["max_grad_norm"], use_sde=cfg.get("use_sde", False), policy_kwargs=pk, **common_kw)
     elif algo == "dqn":
         m = sb3.DQN("MlpPolicy", env, batch_size=cfg["batch_size"], max_grad_norm=cfg["max_grad_norm"], learning_starts=cfg["learning_starts"], train_freq=cfg["train_freq"],
-                    gradient_steps=cfg["gradient_steps"], target_update_interval=5, buffer_size=200, policy_kwargs=pk, **common_kw)
+                    gradient_steps=cfg["gradient_steps"], target_update_interval=cfg.get("target_update_interval", 5), buffer_size=200, policy_kwargs=pk, **common_kw)
     elif algo == "sac":
         pk = dict(net_arch=[8], n_critics=cfg["n_critics"], share_features_extractor=cfg.get("share", False))
         m = sb3.SAC("MlpPolicy", env, batch_size=cfg["batch_size"], ent_coef=cfg["ent_coef"], learning_starts=cfg["learning_starts"], train_freq=cfg["train_freq"],
@@ -792,6 +801,8 @@ def build_model(cfg):
         cfg["target_entropy"] = cfg["target_entropy_arg"] if cfg.get("target_entropy_arg") is not None else -2.0  # -prod(action shape) for the 2-d action space
     else:
         pk = dict(net_arch=[8], n_critics=cfg["n_critics"], share_features_extractor=cfg.get("share", False))
+        if cfg.get("default_critics"):
+            pk = dict(net_arch=[8])  # DDPG must fall back to one critic on its own
         if algo == "td3":
             m = sb3.TD3("MlpPolicy", env, batch_size=cfg["batch_size"], policy_delay=cfg["policy_delay"], target_policy_noise=cfg["target_policy_noise"],
                         target_noise_clip=cfg["target_noise_clip"], learning_starts=cfg["learning_starts"], train_freq=cfg["train_freq"], gradient_steps=cfg["gradient_steps"],
@@ -805,6 +816,16 @@ def build_model(cfg):
 def run_config(cfg):
     m = build_model(cfg)
     rec = Recorder(cfg["algo"], m, cfg, cfg["total"])
+    if cfg.get("target_kl") is not None:
+        orig_train = m.train
+
+        def train_counting():
+            before = rec.n_opt_steps
+            orig_train()
+            full = m.n_epochs * max(1, -(-(m.n_steps * m.n_envs) // m.batch_size))
+            rec.count("ppo_target_kl_early_stop" if rec.n_opt_steps - before < full else "ppo_target_kl_not_reached")
+
+        m.train = train_counting
     if cfg["algo"] == "sac":
         check_sac_setup(rec, m, cfg)
     undo = install(rec)
@@ -839,6 +860,8 @@ def check_sac_setup(rec, m, cfg):
     if abs(H - want_H) > 1e-9:
         rec.problems.append(("oracle-sac-target-entropy-setup", f"target_entropy {H}, expected {want_H} (-prod(action shape) when 'auto')", -1))
     ec = cfg["ent_coef"]
+    if isinstance(ec, str) and not ec.startswith("auto"):
+        ec = float(ec)  # "Force conversion to float": a numeric string is a fixed coefficient
     if isinstance(ec, str):
         init = float(ec.split("_")[1]) if "_" in ec else 1.0
         spec = f"(EntAuto {'(Some ' + fq(init) + ')' if '_' in ec else 'None'})"
